@@ -47,6 +47,9 @@ CHECKS.update({
  "C07": ("exploration","runtime oracle: raw dump of the compiled CDB/RocksDB vs the sequential line codec's records, across 11 compiler settings; watchdog + structural deadlock witness; race-detector child in the thorough tier",
          "Compiles files of ~50/5 000/70 000 records (hot keys across bucket cuts and batch boundaries) with the real compilers under CDB workers 1/4/16, RocksDB builder 1/4/16 CPUs, batches 7/1000/default x parallelism 1/4/0 and v1/v2 keys, dumps the result with the repository's own iterator / a raw CDB walk and compares key -> multiset of values with the sequential codec output; a rejected line must fail every setting; a compile that does not return is a violation only with two identical all-blocked goroutine dumps.",
          "The reference is the repository's own line codec, as the statement defines it. Order of values under one key is not compared.","4/C07"),
+ "C08": ("exploration","runtime oracle: raw dump after the real ApplyDiff vs raw dump of a fresh compile, over generated file chains; failure-atomicity probes with dump comparison",
+         "Generates chains of data files (removals, duplicated lines, additions under existing keys, subnet churn), preprocesses each with the dnsrocks-preproc codec settings, renders the multiset line difference as -/+ lines in random order, applies it with the real RDB.ApplyDiff to the RocksDB compiled from the previous file (v1 and v2 keys) and compares the raw dump with a fresh compile of the next file; broken variants of every diff must fail and leave the dump unchanged.",
+         "Trusts the harness's multiset line diff and the dump helper (repository's own cgo iterator).","4/C08"),
 })
 BUILT = set(CHECKS)
 ALL = [json.loads(l)["id"] for l in open("properties.jsonl")]
